@@ -242,7 +242,9 @@ def scUnset (sc : Sc) (n : Name) : Sc := sc.filter fun e => e.1 != n
 
 /-- persistency values a face of this kind may be switched to (face.go update) -/
 def persOk (f : Face) (p : Nat) : Bool :=
-  if f.rscheme == "ether" && p != 2 then false
+  -- FacePersistency is one of persistent (0), on-demand (1), permanent (2) whatever the kind of face (F-17l)
+  if p > 2 then false
+  else if f.rscheme == "ether" && p != 2 then false
   else if (f.rscheme == "udp4" || f.rscheme == "udp6") && p != 0 && p != 2 then false
   else if f.lscheme == "unix" && p != 0 then false
   else true
